@@ -5,6 +5,7 @@ import (
 	"os"
 	"strings"
 	"golang.org/x/tools/go/ssa"
+	"encoding/json"
 	"fmt"
 	"go/types"
 	"sort"
@@ -377,5 +378,16 @@ func init() {
 				}
 			}
 		}
+	}
+}
+
+func init() {
+	// bounds-baseline: prints the per-function counts of provably in-bounds constant-offset accesses (JSON)
+	debugHooks["bounds-baseline"] = func(p *ir.Program) {
+		c := &Ctx{P: p, R: report.New("DBG", "quick")}
+		st := c.boundsStats(boundsPkgs)
+		b, _ := json.MarshalIndent(st, "", " ")
+		fmt.Println("BASELINE-BEGIN")
+		fmt.Println(string(b))
 	}
 }
